@@ -24,7 +24,7 @@ var initialismSet = func() map[string]bool {
 // IsInitialism reports whether the lower-case word is a known initialism.
 func IsInitialism(w string) bool { return initialismSet[w] }
 
-// OrdinaryWords are lower-case words (length >= 2, letters only) that are not
+// OrdinaryWords are lower-case words (length >= 2, a letter first, a few ending in digits) that are not
 // initialisms and do not start or end with an initialism-forming sequence in
 // a way that matters (they are always rendered Capitalised+lower-case).
 var OrdinaryWords = []string{
@@ -34,6 +34,8 @@ var OrdinaryWords = []string{
 	"enable", "disable", "interval", "delay", "buffer", "queue", "worker", "pool", "shard", "replica",
 	"primary", "backup", "metric", "trace", "span", "batch", "flush", "window", "burst", "quota",
 	"up", "to", "on", "db", "fs", "io", "tag", "env", "var", "val", "is", "as", "us", "go", "in",
+	// ordinary words that end in digits: the next word's capital follows a digit, not a lower-case letter
+	"sha256", "md5", "base64", "port2", "ab1",
 }
 
 // PluralInitialisms are plural forms of initialisms as Go code writes them
